@@ -714,3 +714,230 @@ Proof.
     + intros y. unfold inprog_remove, rec_set_status. sp. rewrite In_srem. tauto.
     + intros y Hy. unfold inprog_remove, rec_set_status. sp. rewrite In_srem. tauto.
 Qed.
+
+Lemma Inv_fold_reports c g reps : forall s cl ca, WF g -> Inv g s -> Pend g s cl ca -> dry c = false ->
+  NoDup (map fst reps) -> (forall x o, In (x, o) reps -> In x (inprog s)) ->
+  let '(s', cl', ca') := fold_left (handle_report_gen c g) reps (s, cl, ca) in
+  Inv g s' /\ Pend g s' cl' ca' /\ (forall y, In y (inprog s') -> In y (inprog s)).
+Proof.
+  induction reps as [|[x o] reps IH]; intros s cl ca W I P D Hn Hin; cbn [fold_left].
+  - splits; auto.
+  - assert (Hx : In x (inprog s)) by (eapply Hin; left; reflexivity).
+    pose proof (Inv_handle_report c g s cl ca x o W I P Hx D) as H.
+    destruct (handle_report_gen c g (s, cl, ca) (x, o)) as [[s1 cl1] ca1].
+    destruct H as (I1 & P1 & A1 & B1).
+    cbn [map fst] in Hn. inversion Hn as [|? ? Hnx Hn']; subst.
+    specialize (IH s1 cl1 ca1 W I1 P1 D Hn').
+    assert (Hin' : forall y o', In (y, o') reps -> In y (inprog s1)).
+    { intros y o' Hy. apply B1.
+      - intros ->. apply Hnx. apply in_map_iff. exists (x, o'). auto.
+      - eapply Hin. right. exact Hy. }
+    specialize (IH Hin').
+    destruct (fold_left (handle_report_gen c g) reps (s1, cl1, ca1)) as [[s' cl'] ca'].
+    destruct IH as (I' & P' & A'). splits; auto.
+Qed.
+
+Lemma Inv_sweeps g s cl ca : Inv g s -> Pend g s cl ca ->
+  Inv g (mark_cancelled_list ca (mark_failed_list cl s)).
+Proof.
+  intros I P. destruct (mfl_frame cl s) as (M1 & M2 & M3 & _).
+  apply Inv_mark_cancelled_list.
+  - apply Inv_mark_failed_list; auto.
+  - intros y Hy. rewrite M1, M2, M3. apply P. auto.
+Qed.
+
+Lemma inprog_sweeps s cl ca : inprog (mark_cancelled_list ca (mark_failed_list cl s)) = inprog s.
+Proof.
+  destruct (mfl_frame cl s) as (_ & M2 & _). destruct (mcl_frame ca (mark_failed_list cl s)) as (_ & N2 & _).
+  congruence.
+Qed.
+
+Lemma Inv_dispatch c g reps s : WF g -> Inv g s -> (dry c = false \/ reps = []) ->
+  NoDup (map fst reps) -> (forall x o, In (x, o) reps -> In x (inprog s)) ->
+  Inv g (dispatch_gen c g reps s) /\ (forall y, In y (inprog (dispatch_gen c g reps s)) -> In y (inprog s)).
+Proof.
+  intros W I D Hn Hin. unfold dispatch_gen. destruct D as [D| ->].
+  - assert (P0 : Pend g s [] []) by (intros y [[]|[]]).
+    pose proof (Inv_fold_reports c g reps s [] [] W I P0 D Hn Hin) as H.
+    destruct (fold_left (handle_report_gen c g) reps (s, [], [])) as [[s' cl'] ca'].
+    destruct H as (I' & P' & A'). split; [apply Inv_sweeps; auto|].
+    intros y. rewrite inprog_sweeps. auto.
+  - cbn [fold_left]. rewrite mfl_nil, mcl_nil. auto.
+Qed.
+
+(** the staging loop *)
+Definition frame_stage (s s' : st) : Prop :=
+  completed s' = completed s /\ inprog s' = inprog s /\ failed s' = failed s /\ cancelled s' = cancelled s /\
+  recs s' = recs s /\ canceled s' = canceled s /\ evs s' = evs s /\ subs s' = subs s /\ next_job s' = next_job s.
+
+Lemma frame_stage_refl s : frame_stage s s.
+Proof. repeat split. Qed.
+Lemma frame_stage_trans a b d : frame_stage a b -> frame_stage b d -> frame_stage a d.
+Proof. unfold frame_stage. intuition congruence. Qed.
+
+Lemma stage_node_frame g s x : frame_stage s (stage_node_gen g s x).
+Proof.
+  unfold stage_node_gen. destruct (mem x (completed s)); [apply frame_stage_refl|].
+  destruct (state_eqb (status (getrec s x)) INITIALIZED); [|apply frame_stage_refl].
+  destruct (is_nil (getdeps (deps_prune x s) x)); [|repeat split].
+  destruct (negb (mem x (ready (deps_prune x s)))); repeat split.
+Qed.
+
+Lemma stage_fold_frame g l : forall s, frame_stage s (fold_left (stage_node_gen g) l s).
+Proof.
+  induction l as [|a l IH]; intros s; cbn [fold_left]; [apply frame_stage_refl|].
+  eapply frame_stage_trans; [apply stage_node_frame|apply IH].
+Qed.
+
+Lemma state_eqb_eq a b : state_eqb a b = true <-> a = b.
+Proof. destruct a, b; cbn; split; intros H; try reflexivity; try discriminate. Qed.
+
+Lemma Inv_stage_node g s x : Inv g s -> x < length g -> Inv g (stage_node_gen g s x).
+Proof.
+  intros I Hx. unfold stage_node_gen.
+  destruct (mem x (completed s)) eqn:Mc; auto.
+  destruct (state_eqb (status (getrec s x)) INITIALIZED) eqn:Es; auto.
+  apply state_eqb_eq in Es. apply mem_false in Mc.
+  pose proof (Inv_deps_prune g x s I) as I1.
+  destruct (is_nil (getdeps (deps_prune x s) x)) eqn:En; auto.
+  destruct (negb (mem x (ready (deps_prune x s)))) eqn:Er; auto.
+  apply negb_true_iff, mem_false in Er.
+  apply Inv_ready_push; auto; try exact Mc.
+  - intros H. apply (i_init g s I x); auto.
+  - intros H. apply (i_init g s I x); auto.
+  - intros H. apply (i_init g s I x); auto.
+  - intros p Hp. destruct (i_deps g _ I1 x p Hx Hp) as [H|H]; auto.
+    destruct (getdeps (deps_prune x s) x); [destruct H|discriminate].
+Qed.
+
+Lemma Inv_stage g l : forall s, Inv g s -> (forall x, In x l -> x < length g) ->
+  Inv g (fold_left (stage_node_gen g) l s).
+Proof.
+  induction l as [|a l IH]; intros s I H; cbn [fold_left]; auto.
+  apply IH; [apply Inv_stage_node; auto; apply H; left; reflexivity|].
+  intros x Hx. apply H. right. exact Hx.
+Qed.
+
+(** the launch loop *)
+Lemma ready_head_facts g s x rest : Inv g s -> ready s = x :: rest ->
+  x < length g /\ ~ In x (completed s) /\ ~ In x (inprog s) /\ ~ In x rest /\ ~ In x (failed s) /\
+  ~ In x (cancelled s) /\ incl (parents (attr g x)) (completed s).
+Proof.
+  intros I E.
+  assert (Hr : In x (ready s)) by (rewrite E; left; reflexivity).
+  splits.
+  - apply (i_bound g s I). auto.
+  - intros H. exact (i_dj_cr g s I x H Hr).
+  - intros H. exact (i_dj_ir g s I x H Hr).
+  - pose proof (i_nd_ready g s I) as N. rewrite E in N. inversion N; auto.
+  - intros H. destruct (i_dj_fc g s I x (or_introl H)) as (_ & _ & A). auto.
+  - intros H. destruct (i_dj_fc g s I x (or_intror H)) as (_ & _ & A). auto.
+  - apply (i_anc g s I). auto.
+Qed.
+
+Lemma Inv_launch_body c g s : WF g -> Inv g s -> Inv g (launch_body_gen c g s).
+Proof.
+  intros W I. unfold launch_body_gen. destruct (ready s) as [|x rest] eqn:E; auto.
+  destruct (ready_head_facts g s x rest I E) as (Hl & Hc & Hi & Hr & Hf & Hca & Hp).
+  pose proof (Inv_pop g x rest s I E) as I1.
+  change (canceled (set_ready s rest)) with (canceled s). destruct (canceled s).
+  - change (Inv g (rec_set_status x CANCELLED (cancelled_add x (set_ready s rest)))).
+    apply Inv_cancelled_mark; auto. discriminate.
+  - apply Inv_execute_record; auto. discriminate.
+Qed.
+
+Lemma length_inprog_launch_body c g s :
+  length (inprog (launch_body_gen c g s)) <= S (length (inprog s)).
+Proof.
+  unfold launch_body_gen. destruct (ready s) as [|x rest]; [lia|].
+  change (canceled (set_ready s rest)) with (canceled s). destruct (canceled s).
+  - unfold cancelled_add, rec_set_status. sp. lia.
+  - destruct (length_inprog_execute_record c g x false (set_ready s rest)) as [A _]. exact A.
+Qed.
+
+Lemma Inv_launch c g n : forall s, WF g -> Inv g s ->
+  Inv g (Nat.iter n (launch_body_gen c g) s) /\
+  length (inprog (Nat.iter n (launch_body_gen c g) s)) <= n + length (inprog s).
+Proof.
+  induction n as [|n IH]; intros s W I; cbn [Nat.iter nat_rect]; [split; auto|].
+  destruct (IH s W I) as [I1 L1]. split; [apply Inv_launch_body; auto|].
+  pose proof (length_inprog_launch_body c g (Nat.iter n (launch_body_gen c g) s)). 
+  unfold Nat.iter in *. lia.
+Qed.
+
+(** * The poll *)
+Lemma init_Inv g : Inv g (init g).
+Proof.
+  constructor; unfold init, getdeps, getrec; cbn; try tauto; try (apply map_length); try (apply NoDup_nil).
+  intros x p Hx Hp. left.
+  rewrite nth_indep with (d' := parents dflt_attr) by (rewrite map_length; exact Hx).
+  rewrite map_nth. exact Hp.
+Qed.
+
+Lemma init_Thr c g : Thr c (init g).
+Proof. intros _. cbn. lia. Qed.
+
+Lemma Thr_le c s s' : length (inprog s') <= length (inprog s) -> Thr c s -> Thr c s'.
+Proof. unfold Thr. intros H T Hp. specialize (T Hp). lia. Qed.
+
+Lemma ers_Inv c g p s : WF g -> Inv g s -> Thr c s -> valid_pin s p = true ->
+  Inv g (fst (execute_ready_steps_gen c g p s)) /\ Thr c (fst (execute_ready_steps_gen c g p s)).
+Proof.
+  intros W I T V. apply valid_pin_spec in V. destruct V as [Vn Vi].
+  unfold execute_ready_steps_gen.
+  set (s1 := if negb (dry c) then emit (ECheck (map (lastjob s) (inprog s))) s else s).
+  assert (I1 : Inv g s1) by (subst s1; destruct (negb (dry c)); [apply Inv_emit|]; auto).
+  assert (E1 : inprog s1 = inprog s) by (subst s1; destruct (negb (dry c)); reflexivity).
+  set (q := if negb (dry c) then qcode p else QOK).
+  set (reps := if negb (dry c) then reports p else []).
+  destruct (qcode_eqb q QERROR); cbn [fst].
+  - split; auto. eapply Thr_le; [|exact T]. rewrite E1. lia.
+  - set (s2 := if qcode_eqb q QOK then dispatch_gen c g reps s1 else s1).
+    assert (H2 : Inv g s2 /\ (forall y, In y (inprog s2) -> In y (inprog s1))).
+    { subst s2. destruct (qcode_eqb q QOK); [|split; auto].
+      apply Inv_dispatch; auto.
+      - subst reps. destruct (dry c); cbn; auto.
+      - subst reps. destruct (negb (dry c)); [exact Vn|constructor].
+      - subst reps. rewrite E1. destruct (negb (dry c)); [exact Vi|intros ? ? []]. }
+    destruct H2 as [I2 A2].
+    assert (L2 : length (inprog s2) <= length (inprog s)).
+    { rewrite <- E1. apply NoDup_incl_length; [apply (i_nd_inprog g s2 I2)|exact A2]. }
+    set (s3 := fold_left (stage_node_gen g) (seq 0 (length g)) s2).
+    assert (I3 : Inv g s3) by (apply Inv_stage; auto; intros x Hx; apply In_seq_lt; exact Hx).
+    assert (E3 : inprog s3 = inprog s2) by (destruct (stage_fold_frame g (seq 0 (length g)) s2) as (_ & A & _); exact A).
+    destruct (Inv_launch c g (available_gen c s3) s3 W I3) as [I4 L4]. split; auto.
+    intros Hp. specialize (T Hp). unfold available_gen in *.
+    destruct (throttle c =? 0) eqn:Z; [apply Nat.eqb_eq in Z; lia|].
+    rewrite E3 in *. lia.
+Qed.
+
+Theorem poll_Inv c g s p : WF g -> Inv g s -> Thr c s -> valid_pin s p = true ->
+  Inv g (fst (poll c g s p)) /\ Thr c (fst (poll c g s p)).
+Proof.
+  intros W I T V. unfold poll.
+  set (s0 := set_evs (set_subs s (psubs p)) []).
+  assert (I0 : Inv g s0) by (apply Inv_set_evs, Inv_set_subs; auto).
+  set (s1 := if cancel_req p then cancel_study_gen s0 else s0).
+  assert (I1 : Inv g s1).
+  { subst s1. destruct (cancel_req p); auto. unfold cancel_study_gen. apply Inv_set_canceled, Inv_emit. auto. }
+  assert (E1 : inprog s1 = inprog s) by (subst s1; destruct (cancel_req p); reflexivity).
+  apply ers_Inv; auto.
+  - eapply Thr_le; [|exact T]. rewrite E1. lia.
+  - unfold valid_pin in *. rewrite E1. exact V.
+Qed.
+
+Corollary poll_Inv_let c g s p : WF g -> Inv g s -> Thr c s -> valid_pin s p = true ->
+  let '(s', r) := poll c g s p in Inv g s' /\ Thr c s'.
+Proof. intros W I T V. pose proof (poll_Inv c g s p W I T V) as H. destruct (poll c g s p). exact H. Qed.
+
+Theorem run_states_Inv c g ps : forall s, WF g -> Inv g s -> Thr c s -> valid_pins c g s ps = true ->
+  forall s' r, In (s', r) (run_states c g s ps) -> Inv g s' /\ Thr c s'.
+Proof.
+  induction ps as [|p ps IH]; intros s W I T V s' r Hin; cbn [run_states] in Hin; [destruct Hin|].
+  cbn [valid_pins] in V. apply andb_true_iff in V. destruct V as [V1 V2].
+  pose proof (poll_Inv c g s p W I T V1) as H.
+  destruct (poll c g s p) as [s1 r1]. cbn [fst] in H.
+  destruct r1; try (destruct Hin as [Hin|[]]; inversion Hin; subst; exact H).
+  destruct Hin as [Hin|Hin]; [inversion Hin; subst; exact H|].
+  destruct H as [I1 T1]. eapply IH; eauto.
+Qed.
